@@ -27,6 +27,9 @@ IB = {"confidence_method": "interval_bounds"}
 STD = {"confidence_method": "std_intensity"}
 MS = {"multiscale_method": "fixed_zoom_pyramid"}
 
+# not-a-number is outside every bounded numeric domain; the string is turned into the float by update_conf
+NOT_A_NUMBER = [float("nan"), "NaN"]
+
 TABLE = [
     # kind, base, param, default, must accept, must reject
     ("matching_cost", MC, "window_size", 5, [1, 3, 5, 7, 11], [0, -1, -3, 2, 4, 6] + WRONG_INT),
@@ -38,7 +41,7 @@ TABLE = [
     ("matching_cost", ZNCC, "subpix", 1, [1, 2, 4], [0, -2, 3, 5, "2", None]),
     ("matching_cost", MC, "step", NO, [1], [2, 3, 0, -1]),
     ("matching_cost", MC, "matching_cost_method", NO, ["sad", "ssd", "zncc", "census"], ["sadd", "", "SAD", None, 3, ["sad"]]),
-    ("aggregation", CBCA, "cbca_intensity", 30.0, [0.5, 30.0, 0.001, 255.0], [0.0, -1.0, -30.0] + WRONG_FLOAT),
+    ("aggregation", CBCA, "cbca_intensity", 30.0, [0.5, 30.0, 0.001, 255.0], [0.0, -1.0, -30.0] + NOT_A_NUMBER + WRONG_FLOAT),
     ("aggregation", CBCA, "cbca_distance", 5, [1, 2, 5, 10], [0, -1, -5] + WRONG_INT),
     ("aggregation", CBCA, "aggregation_method", NO, ["cbca"], ["cbcaa", "", None, 1]),
     ("disparity", WTA, "invalid_disparity", -9999, [-9999, 0, -1, 5.5, "NaN", float("nan"), "inf", "-inf"], ["abc", None, [1], {"a": 1}]),
@@ -46,18 +49,18 @@ TABLE = [
     ("refinement", {"refinement_method": "vfit"}, "refinement_method", NO, ["vfit", "quadratic"], ["vfitt", "", None, 2]),
     ("filter", MED, "filter_size", 3, [1, 3, 5, 9], [0, -1, -3, 2, 4] + WRONG_INT),
     ("filter", MFI, "filter_size", 3, [1, 3, 5, 9], [0, -1, 2, 4] + WRONG_INT),
-    ("filter", BIL, "sigma_color", 2.0, [0.1, 2.0, 50.0], [0.0, -2.0] + WRONG_FLOAT),
-    ("filter", BIL, "sigma_space", 6.0, [0.5, 6.0, 20.0], [0.0, -6.0] + WRONG_FLOAT),
+    ("filter", BIL, "sigma_color", 2.0, [0.1, 2.0, 50.0], [0.0, -2.0] + NOT_A_NUMBER + WRONG_FLOAT),
+    ("filter", BIL, "sigma_space", 6.0, [0.5, 6.0, 20.0], [0.0, -6.0] + NOT_A_NUMBER + WRONG_FLOAT),
     ("filter", MED, "filter_method", NO, ["median", "bilateral", "median_for_intervals"], ["mediann", "", None, 3]),
     ("validation", VAL, "cross_checking_threshold", 1.0, [0, 1, 1.0, 0.5, 2, 10.0], ["1", None, [1]]),
     ("validation", VAL, "interpolated_disparity", NO, ["mc-cnn", "sgm"], ["sgmm", "", 3, ["sgm"]]),
     ("validation", VAL, "validation_method", NO, ["cross_checking_accurate"], ["cross", "", None, 1]),
-    ("cost_volume_confidence", AMB, "eta_max", 0.7, [0.1, 0.7, 0.99, 0.01], [0.0, -0.5] + WRONG_FLOAT),
-    ("cost_volume_confidence", AMB, "eta_step", 0.01, [0.01, 0.1, 0.5], [0.0, -0.01] + WRONG_FLOAT),
-    ("cost_volume_confidence", RISK, "eta_max", 0.7, [0.1, 0.7, 0.99], [0.0, -0.5] + WRONG_FLOAT),
-    ("cost_volume_confidence", RISK, "eta_step", 0.01, [0.01, 0.1, 0.5], [0.0, -0.01] + WRONG_FLOAT),
+    ("cost_volume_confidence", AMB, "eta_max", 0.7, [0.1, 0.7, 0.99, 0.01], [0.0, -0.5, 1.0] + NOT_A_NUMBER + WRONG_FLOAT),
+    ("cost_volume_confidence", AMB, "eta_step", 0.01, [0.01, 0.1, 0.5], [0.0, -0.01, 1.0] + NOT_A_NUMBER + WRONG_FLOAT),
+    ("cost_volume_confidence", RISK, "eta_max", 0.7, [0.1, 0.7, 0.99], [0.0, -0.5, 1.0] + NOT_A_NUMBER + WRONG_FLOAT),
+    ("cost_volume_confidence", RISK, "eta_step", 0.01, [0.01, 0.1, 0.5], [0.0, -0.01, 1.0] + NOT_A_NUMBER + WRONG_FLOAT),
     ("cost_volume_confidence", AMB, "normalization", NO, [True, False], ["yes", None, [True]]),
-    ("cost_volume_confidence", IB, "possibility_threshold", NO, [0.5, 0.9, 1.0, 0.0], [-0.1, 1.1, "0.9", None]),
+    ("cost_volume_confidence", IB, "possibility_threshold", NO, [0.5, 0.9, 1.0, 0.0], [-0.1, 1.1, "0.9", None] + NOT_A_NUMBER),
     ("cost_volume_confidence", IB, "regularization", NO, [True, False], ["no", None]),
     ("cost_volume_confidence", STD, "confidence_method", NO, ["std_intensity", "ambiguity", "risk", "interval_bounds"],
      ["std", "", None, 7]),
